@@ -253,7 +253,14 @@ def brokerVerdicts (pre : Server) (ws : List String) (core flags : String) : Lis
             let routed := io.conns.any fun (_, ps) => ps.any fun p => p.startsWith "PUB:" && fieldOf p "p=" == some (hexOfStr payload)
             let pv := if payload.isEmpty then []
               else if unboundAlias || !aliasOK then
-                (if routed then [fail "C24" "-" "a PUBLISH with an empty topic and an alias the client never bound on this connection, or with an alias above the maximum, was routed"] else [])
+                -- the topics it was delivered under: a topic its publisher may not write is also C17's business
+                let reached := (io.conns.flatMap fun (_, ps) => ps.filterMap fun p =>
+                  if p.startsWith "PUB:" && fieldOf p "p=" == some (hexOfStr payload) then (fieldOf p "t=").bind parseHex else none).eraseDups
+                let c17 := reached.filterMap fun t =>
+                  if !aclOk pre c.id t true || !specTopicOK t then
+                    some (fail "C17" "-" s!"a publish of {toHex c.id} reached topic {toHex t}, which that client may not publish to (through an alias no accepted publish bound)")
+                  else none
+                (if routed then [fail "C24" "-" "a PUBLISH with an empty topic and an alias the client never bound on this connection, or with an alias above the maximum, was routed"] else []) ++ c17
               else publishVerdicts pre io c.id topic payload effQ accepted hook
             c07 ++ c08 ++ pv
           else if typ == "SUBSCRIBE" then
